@@ -61,7 +61,7 @@ func checkVal(t *rapid.T, f inst.Field, what string, got inst.E, want *big.Int) 
 }
 
 var unaryOps = []string{"Neg", "Double", "Square", "Inverse", "Halve", "MulBy3", "MulBy5", "MulBy13", "Sqrt", "Legendre", "LexLargest", "IsZeroOne", "Set", "Mul2ExpNegN", "SetUint64", "SetInt64"}
-var binaryOps = []string{"Add", "Sub", "Mul", "Div", "Cmp", "Equal", "Butterfly", "Select", "Exp", "MulRound"}
+var binaryOps = []string{"Add", "Sub", "Mul", "Div", "Cmp", "Equal", "Butterfly", "Select", "Exp", "MulRound", "MulFinalSub"}
 
 func propUnary(t *rapid.T, f inst.Field) {
 	s := spec(f)
@@ -244,6 +244,17 @@ func propBinary(t *rapid.T, f inst.Field) {
 		checkVal(t, f, "Square (round boundary)", z, R.Sqr(xv))
 		z.Div(x, y)
 		checkVal(t, f, "Div (round boundary)", z, R.Div(xv, yv))
+		rep.Case(test, key, true, op, mc)
+		return
+	case "MulFinalSub":
+		// operands whose unreduced Montgomery product sits on a borrow boundary of the final subtraction
+		xv, yv, mc := s.MontFinalSubPair(t, "fs")
+		x, y = f.FromBig(xv), f.FromBig(yv)
+		key = fmt.Sprintf("%s MulFinalSub(%s,%s)", f.Name(), xv.Text(16), yv.Text(16))
+		z.Mul(x, y)
+		checkVal(t, f, "Mul (final-subtraction boundary) x*y", z, R.Mul(xv, yv))
+		z.Mul(y, x)
+		checkVal(t, f, "Mul (final-subtraction boundary) y*x", z, R.Mul(xv, yv))
 		rep.Case(test, key, true, op, mc)
 		return
 	case "Exp":
